@@ -54,6 +54,7 @@ def parent_classes():
     tweak: float = 1.0   # a hashable attribute that changes the computation (stale-trace probe)
     tail_noise: bool = True
     repeat: int = 1      # how often the lifted child is invoked within one call
+    around: bool = False  # the sub-module used inside the lifted region is also called in plain code before and after it
 
     def _child(self, cls, name='lifted'):
       return cls(self.inner, name=(name if self.name_mode == 'explicit' else None))
@@ -87,21 +88,32 @@ def parent_classes():
       elif k == 'jit_method':
         for _ in range(self.repeat):
           x = self.region(x) if plain else self.region_jit(x)
-      elif k == 'cond':
+      elif k in ('cond', 'switch'):
+        outer = self._child(NodeC, 'br') if (self.around or plain) else None
+        if self.around:
+          x = outer(x)      # plain call before the lifted region
+
+        def br(mdl):
+          # inside a lifted branch `mdl` is a clone of self: the child is re-created there under the same name (same variables)
+          return outer if plain else mdl._child(NodeC, 'br')
+
         def tf(mdl, x):
-          return mdl._child(NodeC, 'br')(x) * 2.0
+          return br(mdl)(x) * 2.0
         def ff(mdl, x):
-          return -mdl._child(NodeC, 'br')(x) + 1.0
-        if plain:
-          x = tf(self, x) if self.ctrl else ff(self, x)
+          return -br(mdl)(x) + 1.0
+        fns = [(lambda mdl, x, s=s: br(mdl)(x) * s + s) for s in (1.0, -0.5, 2.0)]
+        if k == 'cond':
+          if plain:
+            x = tf(self, x) if self.ctrl else ff(self, x)
+          else:
+            x = nn.cond(jnp.asarray(bool(self.ctrl)), tf, ff, self, x, variables=self.lift_vars, rngs=self.lift_rngs)
         else:
-          x = nn.cond(jnp.asarray(bool(self.ctrl)), tf, ff, self, x, variables=self.lift_vars, rngs=self.lift_rngs)
-      elif k == 'switch':
-        fns = [(lambda mdl, x, s=s: mdl._child(NodeC, 'br')(x) * s + s) for s in (1.0, -0.5, 2.0)]
-        if plain:
-          x = fns[self.ctrl](self, x)
-        else:
-          x = nn.switch(jnp.asarray(self.ctrl), fns, self, x, variables=self.lift_vars, rngs=self.lift_rngs)
+          if plain:
+            x = fns[self.ctrl](self, x)
+          else:
+            x = nn.switch(jnp.asarray(self.ctrl), fns, self, x, variables=self.lift_vars, rngs=self.lift_rngs)
+        if self.around:
+          x = outer(x)      # plain call after the lifted region: must see what the region wrote
       elif k == 'while_loop':
         child = self._child(NodeC, 'body')
         x = child(x)  # variables cannot be initialised inside the loop body (documented): create them first
@@ -118,6 +130,8 @@ def parent_classes():
         else:
           carry_cols = ['state', 'batch_stats']
           x = nn.while_loop(cond_fn, body_fn, self, carry, carry_variables=carry_cols)['x']
+        if self.around:
+          x = child(x)      # plain call after the loop
       if self.tail_noise:
         x = x + 0.1 * jax.random.normal(self.make_rng('noise'), x.shape)
       return nn.Dense(1, name='post')(x)
@@ -200,6 +214,7 @@ def run_case(ctx, i, rng):
   ctx.extra.setdefault('kinds', {})
   with ctx.case('case', i, desc, nontrivial=nontrivial):
     tail = kind != 'jit_method'  # forking the rngs of a jitted *method* draws from the parent's own scope (by design)
+    rng_inside_pre = bool(ops & {'noise', 'dropout'})
     from flax.core.scope import DenyList
     # lifting filters that cover everything the program uses must behave like the default (True)
     lv = rng.choice([True, True, ('params', 'state', 'batch_stats', 'probes', 'intermediates', 'perturbations'), DenyList('unused_collection')])
@@ -207,8 +222,10 @@ def run_case(ctx, i, rng):
     if kind in ('map_variables', 'while_loop', 'jit_method'):
       lv, lr = True, True
     desc.update(lift_vars=repr(lv), lift_rngs=repr(lr))
-    lifted = P(kind, inner, d, name_mode, ctrl, lift_vars=lv, lift_rngs=lr, tail_noise=tail)
-    plain = P('plain:' + kind, inner, d, name_mode, ctrl, tail_noise=tail)
+    around = kind in ('cond', 'switch', 'while_loop') and not rng_inside_pre and rng.random() < 0.5
+    desc['around'] = around
+    lifted = P(kind, inner, d, name_mode, ctrl, lift_vars=lv, lift_rngs=lr, tail_noise=tail, around=around)
+    plain = P('plain:' + kind, inner, d, name_mode, ctrl, tail_noise=tail, around=around)
     x = np.random.default_rng(rng.getrandbits(32)).uniform(-1, 1, size=(2, d)).astype(np.float32)
     rngs = {'params': jax.random.key(i), 'noise': jax.random.key(1000 + i), 'other': jax.random.key(2000 + i), 'dropout': jax.random.key(3000 + i)}
     yp, vp = plain.init_with_output(rngs, x)
@@ -259,7 +276,7 @@ def run_case(ctx, i, rng):
       ctx.check(set(u_l) == set(u_p) and close(u_l, u_p), 'updates:differ', lambda: dict(case=desc, plain=repr(u_p)[:500], lifted=repr(u_l)[:500]))
     else:
       # draws inside a jitted module are forked: demand determinism per call site, and identical structure/state counters
-      rl2 = run(P(kind, inner, d, name_mode, ctrl, lift_vars=lv, lift_rngs=lr, tail_noise=tail), V, mutable)
+      rl2 = run(P(kind, inner, d, name_mode, ctrl, lift_vars=lv, lift_rngs=lr, tail_noise=tail, around=around), V, mutable)
       ctx.check(rl2[0] == 'ok' and exact(rl2[1], ol_), 'rng:jit_not_deterministic_across_instances', lambda: dict(case=desc))
       ctx.check(set(u_l) == set(u_p) and shapes(u_l) == shapes(u_p), 'updates:structure', lambda: dict(case=desc))
       cnt_ok = all(np.array_equal(np.asarray(a), np.asarray(b)) for a, b in zip(jax.tree_util.tree_leaves(u_l), jax.tree_util.tree_leaves(u_p)) if np.asarray(a).dtype == np.int32)
